@@ -36,6 +36,8 @@ def config_text(c: dict, port: int, routes=None) -> str:
         extra += '    adj-rib-out false;\n'
     if c.get('adjin'):
         extra += '    adj-rib-in true;\n'
+    elif c.get('adjin') is False:
+        extra += '    adj-rib-in false;\n'
     if c.get('manual_eor'):
         extra += '    manual-eor true;\n'
     if c.get('group_updates') is False:
